@@ -145,6 +145,10 @@ def _leaf_ops(path, f, N, full):
         out.append(("updc", path, "inc"))
     if f.coords and max(f.coords) <= N - 1:
         out.append(("updc", path, "rev"))
+    if f.coords:
+        out.append(("updc", path, "rot2"))
+        if full:
+            out.append(("updc", path, "rot1"))
     for fn in ("id", "dbl", "zero"):
         if fn != "dbl" or mx * 2 <= VMAX:
             out.append(("updp", path, fn))
@@ -197,6 +201,10 @@ def ops(S):
         out.append(("updc1", "inc"))
     if allc and max(allc) <= N - 1:
         out.append(("updc1", "rev"))
+    if allc:
+        out.append(("updc1", "rot2"))
+    if root.coords:
+        out.append(("updc", (), "rot2"))
     for fn in ("id", "dbl", "zero"):
         if fn != "dbl" or mx * 2 <= VMAX:
             out.append(("updp1", fn))
@@ -207,7 +215,9 @@ def ops(S):
     return out
 
 
-CFN = {"inc": lambda n: (lambda i, c, p: c + 1), "rev": lambda n: (lambda i, c, p: (n - 1) - c)}
+CFN = {"inc": lambda n: (lambda i, c, p: c + 1), "rev": lambda n: (lambda i, c, p: (n - 1) - c),
+       # rotations of 0..n: injective, non-monotone (a descent somewhere in the middle), closed over the alphabet
+       "rot2": lambda n: (lambda i, c, p: (c + 2) % (n + 1)), "rot1": lambda n: (lambda i, c, p: (c + 1) % (n + 1))}
 PFN = {"id": lambda i, c, p: p, "dbl": lambda i, c, p: p * 2, "zero": lambda i, c, p: Payload(0)}
 
 
